@@ -193,3 +193,72 @@ func VH_C10_message(msg int, rule int, focus int, cache int) {
 	vassert(after == before, "unverifiable-input-leaves-protocol-state-unchanged")
 	vassert(len(r.Comm.VotedBlocks) == 0, "no-vote-on-unverifiable-input")
 }
+
+// vhJunkSig: a signature list that passes every structural test (q distinct configured signers,
+// non-empty signature bytes) but in which no entry verifies.
+func vhJunkSig(q int, ed bool) *hotstuffpb.QuorumSignature {
+	if ed {
+		var sigs []*hotstuffpb.EDDSASignature
+		for s := 1; s <= q; s++ {
+			sigs = append(sigs, &hotstuffpb.EDDSASignature{Signer: uint32(s), Sig: []byte{nondetU8("byte")}})
+		}
+		return &hotstuffpb.QuorumSignature{Sig: &hotstuffpb.QuorumSignature_EDDSASigs{EDDSASigs: &hotstuffpb.EDDSAMultiSignature{Sigs: sigs}}}
+	}
+	var sigs []*hotstuffpb.ECDSASignature
+	for s := 1; s <= q; s++ {
+		sigs = append(sigs, &hotstuffpb.ECDSASignature{Signer: uint32(s), Sig: []byte{nondetU8("byte")}})
+	}
+	return &hotstuffpb.QuorumSignature{Sig: &hotstuffpb.QuorumSignature_ECDSASigs{ECDSASigs: &hotstuffpb.ECDSAMultiSignature{Sigs: sigs}}}
+}
+
+// C10(c): well-shaped forgeries, delivered repeatedly. The message names a block the replica
+// knows, labels the certificate with that block's view, lists a full quorum of configured
+// signers - only the signature bytes are junk. The same message is handed over `times` times (a
+// peer can resend): the state must be unchanged after every delivery.
+// msg: 1 NewView with QC, 2 NewView with TC, 3 Timeout, 0 Vote, 4 Proposal with forged QC.
+func VH_C10_forged(msg int, rule int, cache int, times int) {
+	synchronizer.VCacheSize = cache
+	r := synchronizer.VNewReplica(4, rule, hotstuff.ID(2), vsymbolic())
+	srv := &Server{blockchain: r.W.Chain, eventLoop: r.El, logger: logging.VNop(), config: r.W.Cfg}
+	impl := &serviceImpl{srv}
+	q := hotstuff.QuorumSize(4)
+	gen := hotstuff.GetGenesis()
+	cur := hotstuff.View(nondetU64("current-view"))
+	vassume(cur >= 1 && cur < 1<<40)
+	vB := hotstuff.View(nondetU64("block-view"))
+	vassume(vB >= 1 && vB < 1<<40)
+	B := hotstuff.VMakeBlock(hotstuff.VHash(0), gen.Hash(), hotstuff.NewQuorumCert(nil, 0, gen.Hash()), &clientpb.Batch{}, vB, 1)
+	r.W.Chain.Store(B)
+	r.States.VSetView(cur)
+	before := vhSnapshot(r)
+	bh := B.Hash()
+	ed := r.W.Ed
+	peerID := hotstuff.ID(nondetU32("peer"))
+	vassume(peerID >= 1 && peerID <= 4)
+	for i := 0; i < times; i++ {
+		ctx := vhCtx(peerID)
+		switch msg {
+		case 0:
+			one := vhJunkSig(1, ed)
+			impl.Vote(ctx, &hotstuffpb.PartialCert{Sig: one, Hash: bh[:]})
+		case 1:
+			impl.NewView(ctx, &hotstuffpb.SyncInfo{QC: &hotstuffpb.QuorumCert{Sig: vhJunkSig(q, ed), Hash: bh[:], View: uint64(vB)}})
+		case 2:
+			impl.NewView(ctx, &hotstuffpb.SyncInfo{TC: &hotstuffpb.TimeoutCert{Sig: vhJunkSig(q, ed), View: nondetU64("view")}})
+		case 3:
+			impl.Timeout(ctx, &hotstuffpb.TimeoutMsg{View: nondetU64("view"),
+				SyncInfo: &hotstuffpb.SyncInfo{QC: &hotstuffpb.QuorumCert{Sig: vhJunkSig(q, ed), Hash: bh[:], View: uint64(vB)}},
+				ViewSig:  vhJunkSig(1, ed), MsgSig: vhJunkSig(1, ed)})
+		default:
+			blk := &hotstuffpb.Block{Parent: bh[:], QC: &hotstuffpb.QuorumCert{Sig: vhJunkSig(q, ed), Hash: bh[:], View: uint64(vB)},
+				View: nondetU64("view"), Proposer: uint32(peerID), Commands: &clientpb.Batch{}, Timestamp: &timestamppb.Timestamp{Seconds: 1700000000}}
+			impl.Propose(ctx, &hotstuffpb.Proposal{Block: blk})
+		}
+		r.Drain()
+		after := vhSnapshot(r)
+		vassert(after == before, "forged-certificate-leaves-protocol-state-unchanged-on-every-delivery")
+		vassert(len(r.Comm.VotedBlocks) == 0, "no-vote-on-forged-certificate")
+	}
+	vcover("delivered")
+	vobserve("view", uint64(r.States.View()))
+}
